@@ -137,5 +137,191 @@ func init() {
 		fmt.Fprintf(&e.out, "def addPodFields : List String := %s\n", list(fields))
 		fmt.Fprintf(&e.out, "def metricResetFields : List String := %s\n", list(resets))
 		fmt.Fprintf(&e.out, "def metricRebuildsFromPods : Bool := %v\n", rebuilds)
+
+		c08ConcFacts(e, la, text)
 	}
+}
+
+// C08 concurrency shape (lock / critical-section structure the small-step model Proofs/C08ExtConc.lean relies on):
+//   * attempts of the retry loops in podAssignCache.assign / AddOrUpdateNodeMetric,
+//   * nodeInfo.AddOrUpdatePod / AddOrUpdateNodeMetric: `if n.deleted { … return false }` before the lock (touching
+//     nothing else of n before it) and again as the first statement under the lock,
+//   * nodeInfo.DeletePod / DeleteNodeMetric: flag check, Lock, defer Unlock, flag check, …, tryCleanup last,
+//   * tryCleanup: one `if nodeMetric == nil && len(podInfos) == 0` whose body runs CompareAndDelete BEFORE `deleted = true`,
+//   * getOrCreateNodeInfo stores a nodeInfo that is already locked.
+func c08ConcFacts(e *ext, la string, text func(ast.Node) string) {
+	recvName := func(fd *ast.FuncDecl) string {
+		if fd != nil && fd.Recv != nil && len(fd.Recv.List) > 0 && len(fd.Recv.List[0].Names) > 0 {
+			return fd.Recv.List[0].Names[0].Name
+		}
+		return ""
+	}
+	// the bound of `for i := 0; i < N; i++ { n, created := p.getOrCreateNodeInfo(…); if n.<method>(…) { return } }`
+	attempts := func(fn, method string) int64 {
+		fd := e.funcDecl(la, "podAssignCache", fn)
+		if fd == nil || fd.Body == nil {
+			e.fail("podAssignCache.%s not found", fn)
+			return -1
+		}
+		res := int64(-1)
+		loops := 0
+		for _, s := range fd.Body.List {
+			fs, ok := s.(*ast.ForStmt)
+			if !ok {
+				continue
+			}
+			body := text(fs.Body)
+			if !strings.Contains(body, ".getOrCreateNodeInfo(") || !strings.Contains(body, "."+method+"(") {
+				continue
+			}
+			loops++
+			init, ok1 := fs.Init.(*ast.AssignStmt)
+			cond, ok2 := fs.Cond.(*ast.BinaryExpr)
+			post, ok3 := fs.Post.(*ast.IncDecStmt)
+			if !ok1 || !ok2 || !ok3 || text(init) != "i := 0" || cond.Op != token.LSS || text(cond.X) != "i" || post.Tok != token.INC {
+				e.fail("retry loop of podAssignCache.%s is not `for i := 0; i < N; i++`", fn)
+				continue
+			}
+			if n, ok := e.evalInt(la, cond.Y, 0); ok {
+				res = n
+			}
+			// the loop body must be: getOrCreate; if n.method(...) { return }
+			if len(fs.Body.List) != 2 {
+				e.fail("retry loop body of podAssignCache.%s has %d statements", fn, len(fs.Body.List))
+			}
+		}
+		if loops != 1 {
+			e.fail("podAssignCache.%s: %d retry loops", fn, loops)
+			return -1
+		}
+		return res
+	}
+	fmt.Fprintf(&e.out, "def assignAttempts : Nat := %d\n", max64(attempts("assign", "AddOrUpdatePod"), 0))
+	fmt.Fprintf(&e.out, "def metricAttempts : Nat := %d\n", max64(attempts("AddOrUpdateNodeMetric", "AddOrUpdateNodeMetric"), 0))
+
+	// markers of the top-level statements of a nodeInfo method
+	isFlagCheck := func(rn string, s ast.Stmt) (isCheck bool, unlocksIfLocked bool) {
+		is, ok := s.(*ast.IfStmt)
+		if !ok || is.Init != nil || is.Else != nil || text(is.Cond) != rn+".deleted" || len(is.Body.List) == 0 {
+			return false, false
+		}
+		if _, ok := is.Body.List[len(is.Body.List)-1].(*ast.ReturnStmt); !ok {
+			return false, false
+		}
+		return true, strings.Contains(text(is.Body), "if locked { "+rn+".Unlock() }")
+	}
+	markers := func(fd *ast.FuncDecl) (ms []string, preLock []string) {
+		rn := recvName(fd)
+		locked := false
+		touched := map[string]bool{}
+		for _, s := range fd.Body.List {
+			t := text(s)
+			switch {
+			case t == "if !locked { "+rn+".Lock() }" || t == rn+".Lock()":
+				ms = append(ms, "lock")
+				locked = true
+				continue
+			case t == "defer "+rn+".Unlock()":
+				ms = append(ms, "defer-unlock")
+				continue
+			}
+			if ok, _ := isFlagCheck(rn, s); ok {
+				ms = append(ms, "check")
+				continue
+			}
+			if strings.HasPrefix(t, "p.tryCleanup(") {
+				ms = append(ms, "cleanup")
+				continue
+			}
+			if !locked {
+				ast.Inspect(s, func(x ast.Node) bool {
+					if sel, ok := x.(*ast.SelectorExpr); ok {
+						if id, ok := sel.X.(*ast.Ident); ok && id.Name == rn {
+							touched[sel.Sel.Name] = true
+						}
+					}
+					return true
+				})
+			}
+			if len(ms) == 0 || ms[len(ms)-1] != "work" {
+				ms = append(ms, "work")
+			}
+		}
+		for k := range touched {
+			preLock = append(preLock, k)
+		}
+		sort.Strings(preLock)
+		return
+	}
+	strs := func(xs []string) string {
+		q := make([]string, len(xs))
+		for i := range xs {
+			q[i] = leanStr(xs[i])
+		}
+		return "[" + strings.Join(q, ", ") + "]"
+	}
+	for _, m := range []struct{ fn, lean string }{{"AddOrUpdatePod", "addPodSteps"}, {"AddOrUpdateNodeMetric", "addMetricSteps"},
+		{"DeletePod", "delPodSteps"}, {"DeleteNodeMetric", "delMetricSteps"}} {
+		fd := e.funcDecl(la, "nodeInfo", m.fn)
+		if fd == nil || fd.Body == nil {
+			e.fail("nodeInfo.%s not found", m.fn)
+			fmt.Fprintf(&e.out, "def %s : List String := []\ndef %sPreLock : List String := [\"?\"]\n", m.lean, m.lean)
+			continue
+		}
+		ms, pre := markers(fd)
+		fmt.Fprintf(&e.out, "def %s : List String := %s\n", m.lean, strs(ms))
+		fmt.Fprintf(&e.out, "def %sPreLock : List String := %s\n", m.lean, strs(pre))
+	}
+	// the first flag check of the add-type methods releases the lock of a created nodeInfo
+	rel := true
+	for _, fn := range []string{"AddOrUpdatePod", "AddOrUpdateNodeMetric"} {
+		fd := e.funcDecl(la, "nodeInfo", fn)
+		if fd == nil || fd.Body == nil || len(fd.Body.List) == 0 {
+			rel = false
+			continue
+		}
+		ok, unl := isFlagCheck(recvName(fd), fd.Body.List[0])
+		rel = rel && ok && unl
+	}
+	fmt.Fprintf(&e.out, "def fastCheckReleasesCreated : Bool := %v\n", rel)
+
+	// tryCleanup
+	order := []string{}
+	cond := ""
+	if fd := e.funcDecl(la, "podAssignCache", "tryCleanup"); fd != nil && fd.Body != nil && len(fd.Body.List) == 1 {
+		if is, ok := fd.Body.List[0].(*ast.IfStmt); ok && is.Else == nil && is.Init == nil {
+			cond = text(is.Cond)
+			for _, s := range is.Body.List {
+				t := text(s)
+				switch {
+				case t == "n.deleted = true":
+					order = append(order, "flag")
+				case strings.HasPrefix(t, "p.items.CompareAndDelete(name, n)"):
+					order = append(order, "cad")
+				default:
+					order = append(order, "other")
+				}
+			}
+		}
+	} else {
+		e.fail("podAssignCache.tryCleanup is not a single if statement")
+	}
+	fmt.Fprintf(&e.out, "def cleanupOrder : List String := %s\n", strs(order))
+	fmt.Fprintf(&e.out, "def cleanupCond : String := %s\n", leanStr(cond))
+
+	// getOrCreateNodeInfo: n := &nodeInfo{}; n.Lock(); v, loaded := p.items.LoadOrStore(nodeName, n); return …, !loaded
+	created := false
+	if fd := e.funcDecl(la, "podAssignCache", "getOrCreateNodeInfo"); fd != nil && fd.Body != nil && len(fd.Body.List) == 4 {
+		l := fd.Body.List
+		created = text(l[0]) == "n := &nodeInfo{}" && text(l[1]) == "n.Lock()" &&
+			text(l[2]) == "v, loaded := p.items.LoadOrStore(nodeName, n)" && text(l[3]) == "return v.(*nodeInfo), !loaded"
+	}
+	fmt.Fprintf(&e.out, "def createdLocked : Bool := %v\n", created)
+}
+
+func max64(a, b int64) int64 {
+	if a > b {
+		return a
+	}
+	return b
 }
